@@ -29,12 +29,14 @@ impl Module for CustomMod {
     fn execute<ExecC, QueryC>(
         &self,
         _api: &dyn Api,
-        _storage: &mut dyn Storage,
+        storage: &mut dyn Storage,
         _router: &dyn CosmosRouter<ExecC = ExecC, QueryC = QueryC>,
         _block: &BlockInfo,
         sender: Addr,
         msg: PMsg,
     ) -> AnyResult<AppResponse> {
+        // like real modules (staking: stake recorded, then the bank transfer fails), it writes before it decides
+        storage.set(&custom_record_key(msg.tag), format!("from:{}", sender).as_bytes());
         if msg.fail {
             anyhow::bail!("custom module rejects message {}", msg.tag);
         }
@@ -466,6 +468,16 @@ impl World {
                 }
             }
             Err(e) => d.push(Disc { props: vec!["C09"], sig: "bank-raw-ledger-malformed".into(), detail: e }),
+        }
+        // the custom module's own records
+        {
+            let p = rawstate::prefix(&[b"vcustom"]);
+            let real: BTreeMap<Vec<u8>, Vec<u8>> = raw.iter().filter(|(k, _)| k.starts_with(&p)).cloned().collect();
+            rep.bump("e1/state/module_records_compared");
+            if real != self.model.st.custom {
+                let show = |m: &BTreeMap<Vec<u8>, Vec<u8>>| m.keys().map(|k| rawstate::show(&k[p.len()..])).collect::<Vec<_>>();
+                d.push(Disc { props: vec!["C02", "C01"], sig: "module-records-differ".into(), detail: format!("{}: the custom module's records are {:?}, expected {:?}", ctx, show(&real), show(&self.model.st.custom)) });
+            }
         }
         // wasm
         match decode_wasm(&raw) {
@@ -1009,7 +1021,7 @@ impl World {
                 // I4 footprint: a wasm/bank transaction changes nothing outside the bank and wasm namespaces
                 {
                     let outside = |r: &rawstate::Raw| -> Vec<(Vec<u8>, Vec<u8>)> {
-                        r.iter().filter(|(k, _)| { let m = rawstate::module_of(k); m != "bank" && m != "wasm" }).cloned().collect()
+                        r.iter().filter(|(k, _)| { let m = rawstate::module_of(k); m != "bank" && m != "wasm" && m != "vcustom" }).cloned().collect()
                     };
                     rep.bump("e1/footprint/checks");
                     if outside(&before) != outside(&after) {
